@@ -116,12 +116,45 @@ def eq_terms(a: Term, b: Term):
     a, b = strip_alloc(a), strip_alloc(b)
     if a == b:
         return True, "identical terms"
+    if _is_index_expr(a) and _is_index_expr(b):
+        # integer expressions over loop variables / parameters: equal iff their polynomial normal forms are equal
+        lv = {}
+
+        def at(t):
+            if t[0] in ("loopvar", "elem", "sym"):
+                return lv.setdefault(t, sp.Symbol(f"i{len(lv)}", integer=True))
+            return None
+        try:
+            tr = S.Translator(at)
+            tr.ufuncs = False
+            ea, eb = tr.tr(a), tr.tr(b)
+            if not tr.atoms:
+                if sp.expand(ea - eb) == 0:
+                    return True, "equal index expressions"
+                return False, f"index expression {show(a)[:40]} where {show(b)[:40]} is required"
+        except Exception:  # noqa
+            pass
     try:
         tr = S.Translator()
         x, y = tr.tr(a), tr.tr(b)
         return S.decide_equal(x, y)
     except Exception as e:  # noqa
         return None, f"not comparable: {type(e).__name__}"
+
+
+def _is_index_expr(t: Term) -> bool:
+    k = t[0]
+    if k == "const":
+        return isinstance(t[1], int) and not isinstance(t[1], bool)
+    if k in ("loopvar", "sym"):
+        return True
+    if k == "elem":
+        return t[1][0] == "loopvar"
+    if k == "bin":
+        return t[1] in ("+", "-", "*") and _is_index_expr(t[2]) and _is_index_expr(t[3])
+    if k == "un":
+        return t[1] in ("-", "+") and _is_index_expr(t[2])
+    return False
 
 
 def eqv(got: Optional[Term], *wants: Term, same: bool = False) -> Optional[bool]:
